@@ -571,11 +571,18 @@ func body(s *simrt.Sim, tier string) {
 		_, mrec := kit.RunNode(s, fmt.Sprintf("restart-k%d", k), 0, e.restart(dir, where))
 		s.Disk().OpLog = s.Disk().OpLog[:0]
 		os.RemoveAll(dir)
-		if len(e.viol) != nviol || !double {
+		if len(e.viol) != nviol || mrec == 0 {
 			continue
 		}
-		// ---- thorough: a second crash at every op of the recovery run --------
-		for j := 1; j <= mrec; j++ {
+		// ---- second crash: at every op of the recovery run (thorough, 30% of the
+		// scripts), otherwise at one drawn op of it per first crash point --------
+		jFrom, jTo := 1, mrec
+		if !double {
+			jFrom = 1 + tp.Draw(mrec)
+			jTo = jFrom
+			s.Probe("second_crash_sampled")
+		}
+		for j := jFrom; j <= jTo; j++ {
 			dir := newDir(s)
 			var p progress
 			kit.RunNode(s, fmt.Sprintf("agent-k%d-j%d", k, j), k, download(dir, sc, &p))
@@ -659,7 +666,7 @@ func TestC04(t *testing.T) {
 		PerRun:      func() { curDir = "" },
 		Real:        []string{"lib/store.CADownloadStore", "lib/store/base (FileOp, FileEntry, FileMap, compareAndWriteFile)", "agentstorage.TorrentArchive", "agentstorage.Torrent", "piecereader", "core.MetaInfo", "lib/store/metadata"},
 		Stub:        []string{"metainfoclient.Client (returns the true metainfo)", "tally.NoopScope", "store cleanup jobs disabled", "file system = tmpfs through shim/os, process-crash model (completed system calls persist)"},
-		Rule:        "one run = one download script (1..12 pieces quick / 1..40 thorough, blob <=64 KiB, drawn piece order, ~15% bad payloads, duplicates) executed M+1 times: once to count the M mutating disk ops, then once per crash point k=1..M (process killed before op k), each followed by restart + read-only probes (Stat, cache read, GetTorrent per drawn mask) + restarted download to completion + removal of the blob through the public API (drawn: DeleteTorrent or cache-scope DeleteFile, same or new process, before or after completing) + a new download of the same digest from scratch; 30% of scripts give a partial download up (DeleteTorrent) and start over inside the enumerated history; thorough adds, for 30% of (smaller) scripts, every second crash point of the recovery run, and torn (page-prefix) writes; evaluations = scripts, extra.crash_points_executed = crash points",
+		Rule:        "one run = one download script (1..12 pieces quick / 1..40 thorough, blob <=64 KiB, drawn piece order, ~15% bad payloads, duplicates) executed M+1 times: once to count the M mutating disk ops, then once per crash point k=1..M (process killed before op k), each followed by restart + read-only probes (Stat, cache read, GetTorrent per drawn mask) + restarted download to completion + removal of the blob through the public API (drawn: DeleteTorrent or cache-scope DeleteFile, same or new process, before or after completing) + a new download of the same digest from scratch; 30% of scripts give a partial download up (DeleteTorrent) and start over inside the enumerated history; after every first crash point one drawn second crash point of the recovery run (restart, removal, new download included) is executed too; thorough adds, for 30% of (smaller) scripts, every second crash point of the recovery run, and torn (page-prefix) writes; evaluations = scripts, extra.crash_points_executed = crash points",
 		Assumptions: []string{"process-crash model: every completed system call persists, no reordering, no power loss", "the metainfo service answers after the restart", "single sequential downloader per agent process (concurrency is C03)"},
 	})
 }
